@@ -128,10 +128,13 @@ def run(ctx):
     model = coq_eval_sharded(['Model.Select'], exprs, shard=40)
     ctx.leg('coq_eval_cases', len(exprs))
 
+    snapshots = {}
     for plan, mres in zip(plans, model):
         tag, d, names, ems, enums, flav = plan[:6]
         label = d.spec['label']
         ds = d.ds
+        if id(d) not in snapshots:
+            snapshots[id(d)] = (d, ds.copy(deep=True))
         if tag in ('sel', 'sel_empty'):
             kind, rows, nd_name, vars_ = plan[6:]
             case = {'dataset': label, 'op': 'select_indexes', 'kind': kind, 'indexes': rows, 'index_dimension': nd_name}
@@ -288,6 +291,11 @@ def run(ctx):
                     ctx.report('correspondence', f'{cname}: model Select.extract {m_code, m_labels} and implementation '
                                f'{impl} differ', dict(case, call=cname), found_input=False)
 
+    # selecting does not alter the dataset it selects from (values, attributes, coordinates, variable set)
+    for d0, snap in snapshots.values():
+        ctx.count('input_unchanged_after_all_selections')
+        if not d0.ds.identical(snap):
+            ctx.report('property', 'the dataset was modified by selecting from it', {'dataset': d0.spec['label']})
     # ---------- a history on one dataset object: select, edit a variable in place / add one, select again.
     # Every selection must return the values stored at the time of the call.
     import shapely as _shapely
